@@ -550,6 +550,7 @@ func init() {
 	props["C13"] = propCheck{run: func(env *Env, rep *Report) {
 		env.InitBaseline()
 		env.Pool.cpuLimit = 60 * time.Second
+		env.Pool.HangFuse = 12 // a dozen decided hangs are a verdict; the unchanged tree has one (F1302)
 		r := NewRand(env.Seed, "C13")
 		n := 12000
 		if env.Tier == "thorough" {
